@@ -779,7 +779,8 @@ def def_tokens(d):
     return out + sels_tokens(d["sels"])
 
 
-SEPS = [" ", " ", "\n", ",", " , ", "\t", "  ", ",\n", " # c\n", "\n#x y {\n", "﻿", "\r\n"]
+# comments are ended by LF, CRLF and by a LONE CR (a LineTerminator of the grammar; seeded class C06-9)
+SEPS = [" ", " ", "\n", ",", " , ", "\t", "  ", ",\n", " # c\n", "\n#x y {\n", "﻿", "\r\n", "\r", " # c } {\r", "#\r", " #x\r\n"]
 
 
 def to_text(doc, respell_rng=None):
